@@ -802,6 +802,29 @@ fn gen_fault(rng: &mut Rng, a: &Artefact) -> Fault {
             };
         }
     }
+    if a.kind.is_text() && rng.chance(1, 8) {
+        // Positions aligned to a comment line: its text lost (the marker and the blank after it
+        // survive), lost including the blank, or the line cut right after the marker.
+        let mut comments: Vec<(usize, usize)> = vec![]; // (first byte after the slashes, end of line)
+        let mut start = 0usize;
+        for line in a.bytes.split_inclusive(|b| *b == b'\n') {
+            let body = line.strip_suffix(b"\n").unwrap_or(line);
+            let indent = body.iter().take_while(|b| **b == b' ' || **b == b'\t').count();
+            let slashes = body[indent..].iter().take_while(|b| **b == b'/').count();
+            if slashes >= 2 && body.len() > indent + slashes {
+                comments.push((start + indent + slashes, start + body.len()));
+            }
+            start += line.len();
+        }
+        if !comments.is_empty() {
+            let (s, e) = *rng.pick(&comments);
+            return match rng.below(4) {
+                0 | 1 => Fault::DelRange(s + 1, e.saturating_sub(s + 1).max(1)),
+                2 => Fault::DelRange(s, e - s),
+                _ => Fault::Truncate(s + 1),
+            };
+        }
+    }
     if a.kind.is_text() && rng.chance(1, 4) {
         let lines = a.bytes.iter().filter(|b| **b == b'\n').count().max(1);
         let at = rng.usize_below(lines);
